@@ -12,6 +12,7 @@ package main
 //	                                                                        -> collide|distinct
 //	vt txid=<B|M|X> base=<tx> mut=<tx>   State.VerifyTx on the transaction `mut`, obtained from the accepted
 //	             transaction `base` by one mutation; txid B = the id of base is kept, M = recomputed, X = garbage.
+//	             The base itself is verified first in the same step (same signature bytes), then the mutant.
 //	             Compared with the Lean decision model when base is a v3 transaction, else "-".   -> accept|reject
 //
 // <tx> is one token: fields joined by ';' (see specOf).  In vt lines byte strings may be symbolic:
@@ -431,6 +432,7 @@ func getState() *state.State {
 		xvlib.Die("new state: %v", err)
 	}
 	s.SetAclMG(fakeAcl{})
+	attachContracts(s)
 	if err := s.Play(rb.Blockid); err != nil {
 		xvlib.Die("play root: %v", err)
 	}
@@ -525,6 +527,11 @@ func execVt(line string, oracle bool) (string, int32) {
 	default:
 		mut.Txid = sha("xv-garbage-id")
 	}
+	// the signed base goes through VerifyTx first (with the very signature bytes the mutant inherits): whatever the
+	// implementation keeps from one verification to the next (result caches) is part of the input of the second
+	if bok, _ := getState().VerifyTx(base); !bok && oracle {
+		out.Violate(xvlib.Violation{Key: "signed-tx-rejected", What: "the correctly signed base transaction of a mutation line is rejected by VerifyTx", Ops: []string{line}, Impl: []string{"base: reject"}})
+	}
 	ok, verr := getState().VerifyTx(mut)
 	if !ok && verr == nil && oracle {
 		// Chain.SubmitTx (kernel/engines/xuperos/chain.go) consults only the error of VerifyTx before it calls DoTx:
@@ -549,6 +556,8 @@ func execC07(line string, oracle bool) string {
 		return execDigest(w[0], parseSpec(w[1]))
 	case "k1":
 		return execK1(w, oracle)
+	case "vc":
+		return execVc(line, oracle)
 	case "vt":
 		res, ver := execVt(line, oracle)
 		if oracle {
@@ -589,9 +598,10 @@ func judgeVt(line, res string) {
 			case strings.HasPrefix(cls, "sigarea:"):
 				key = "signature-area-malleable"
 			}
+			ops := []string{line}
 			out.Violate(xvlib.Violation{Key: key,
 				What: fmt.Sprintf("VerifyTx accepts a transaction obtained from a signed one by changing %s (txid %s)", cls, map[string]string{"B": "kept", "M": "recomputed", "X": "garbage"}[m["txid"]]),
-				Ops:  []string{line}, Impl: []string{res}})
+				Ops:  ops, Impl: []string{res}})
 		}
 	}
 }
@@ -667,6 +677,8 @@ func baseSpecs(ver int) map[string]string {
 	noX := "xs=0;xpk=~;xsg=-"
 	return map[string]string{
 		"ak":      common([]string{in("A0", 0), in("A0", 1)}, "A0", "~", "K0/S0.M", "~", noX),
+		// the initiator owns nothing and A2 is a pure co-signer: editing the signer list is not masked by the owner check
+		"cosign": common([]string{in("A1", 0), in("A1", 1)}, "A0", "A1,A2", "K0/S0.M", "K1/S1.M,K2/S2.M", noX),
 		"multi":   common([]string{in("A0", 0), in("A1", 1), in("A2", 2)}, "A0", "A1,A2", "K0/S0.M", "K1/S1.M,K2/S2.M", noX),
 		"account": common([]string{in("C1", 0), in("A0", 1)}, "A0", "C1|A1", "K0/S0.M", "K1/S1.M", noX),
 		"acctini": common([]string{in("C1", 0)}, "C1", "C1|A1", "K1/S1.M", "K1/S1.M", noX),
@@ -849,6 +861,36 @@ func schemaMutants(tx *pb.Transaction, form string) []txMutant {
 			slots(t)[i].Sign = symSig(tok[:strings.LastIndex(tok, ".")] + ".O")
 		})
 	}
+	// a VALID entry of another signer of the same transaction (same digest, public key and signature both copied)
+	// presented in this signer's slot: the key does not hash to the address being identified.  Whatever the
+	// implementation remembers about entries it has already checked (the base is verified first, the initiator
+	// before the listed signers) must not stand in for the address <-> key binding.
+	slotName := func(i int) string {
+		if i >= len(tx.InitiatorSigns) {
+			return "AuthRequireSigns"
+		}
+		return "InitiatorSigns"
+	}
+	for i := range slots(tx) {
+		if form == "acctini" {
+			break // account initiator: entries are identified by their own key (the ACL decides), listed signer already verified
+		}
+		for j := range slots(tx) {
+			i, j := i, j
+			if i == j || slots(tx)[i].PublicKey == slots(tx)[j].PublicKey {
+				continue
+			}
+			emit("signature:"+slotName(i)+":valid-entry-of-other-signer", func(t *pb.Transaction) {
+				src, dst := slots(t)[j], slots(t)[i]
+				dst.PublicKey, dst.Sign = src.PublicKey, append([]byte{}, src.Sign...)
+			})
+		}
+	}
+	if tx.XuperSign != nil && len(tx.XuperSign.PublicKeys) > 1 {
+		emit("signature:XuperSign:pubkeys-swapped", func(t *pb.Transaction) {
+			t.XuperSign.PublicKeys[0], t.XuperSign.PublicKeys[1] = t.XuperSign.PublicKeys[1], t.XuperSign.PublicKeys[0]
+		})
+	}
 	if len(tx.InitiatorSigns) > 0 && len(tx.AuthRequireSigns) > 0 && form != "acctini" {
 		emit("signature:swap-initiator-and-signer", func(t *pb.Transaction) {
 			t.InitiatorSigns[0], t.AuthRequireSigns[0] = t.AuthRequireSigns[0], t.InitiatorSigns[0]
@@ -861,6 +903,57 @@ func schemaMutants(tx *pb.Transaction, form string) []txMutant {
 			t.XuperSign.PublicKeys[1] = []byte(acct(6).PubJSON)
 			t.XuperSign.Signature = symSig("X0_6.N")
 		})
+	}
+	// the signer list edited after signing, each entry TOGETHER with its signature slot, so that the edit is consistent
+	// (lengths agree, every entry that is present is a valid signature of its address over the transaction as it now
+	// is); the other signers' signatures are the ones they gave for the base.  Only the digest — which must cover
+	// Initiator and AuthRequire — stands between such an edit and acceptance.
+	if tx.XuperSign == nil && form != "acctini" {
+		own := func(k int) *protos.SignatureInfo {
+			return &protos.SignatureInfo{PublicKey: acct(k).PubJSON, Sign: symSig("S" + strconv.Itoa(k) + ".N")}
+		}
+		emit("signer-list:AuthRequire:append-with-own-signature", func(t *pb.Transaction) {
+			t.AuthRequire = append(t.AuthRequire, acct(6).Address)
+			t.AuthRequireSigns = append(t.AuthRequireSigns, own(6))
+		})
+		emit("signer-list:AuthRequire:prepend-with-own-signature", func(t *pb.Transaction) {
+			t.AuthRequire = append([]string{acct(6).Address}, t.AuthRequire...)
+			t.AuthRequireSigns = append([]*protos.SignatureInfo{own(6)}, t.AuthRequireSigns...)
+		})
+		emit("signer-list:AuthRequire:append-account-signer-with-own-signature", func(t *pb.Transaction) {
+			t.AuthRequire = append(t.AuthRequire, acctName(6)+"/"+acct(6).Address)
+			t.AuthRequireSigns = append(t.AuthRequireSigns, own(6))
+		})
+		emit("signer-list:Initiator:replace-with-own-signature", func(t *pb.Transaction) {
+			t.Initiator = acct(6).Address
+			t.InitiatorSigns[0] = own(6)
+		})
+		if n := len(tx.AuthRequire); n > 0 && n == len(tx.AuthRequireSigns) {
+			emit("signer-list:AuthRequire:remove-last-with-signature", func(t *pb.Transaction) {
+				t.AuthRequire, t.AuthRequireSigns = t.AuthRequire[:n-1], t.AuthRequireSigns[:n-1]
+			})
+			emit("signer-list:AuthRequire:remove-first-with-signature", func(t *pb.Transaction) {
+				t.AuthRequire, t.AuthRequireSigns = t.AuthRequire[1:], t.AuthRequireSigns[1:]
+			})
+			emit("signer-list:AuthRequire:replace-last-with-own-signature", func(t *pb.Transaction) {
+				t.AuthRequire[n-1] = acct(6).Address
+				t.AuthRequireSigns[n-1] = own(6)
+			})
+			emit("signer-list:AuthRequire:account-prefix-added", func(t *pb.Transaction) {
+				// same last component, so the entry's own signature check is the same: only the digest sees the change
+				if !strings.Contains(t.AuthRequire[n-1], "/") {
+					t.AuthRequire[n-1] = acctName(2) + "/" + t.AuthRequire[n-1]
+				} else {
+					t.AuthRequire[n-1] = t.AuthRequire[n-1][strings.LastIndex(t.AuthRequire[n-1], "/")+1:]
+				}
+			})
+			if n > 1 {
+				emit("signer-list:AuthRequire:swap-with-signatures", func(t *pb.Transaction) {
+					t.AuthRequire[0], t.AuthRequire[1] = t.AuthRequire[1], t.AuthRequire[0]
+					t.AuthRequireSigns[0], t.AuthRequireSigns[1] = t.AuthRequireSigns[1], t.AuthRequireSigns[0]
+				})
+			}
+		}
 	}
 	emit("signer:Initiator:other", func(t *pb.Transaction) { t.Initiator = acct(6).Address })
 	if len(tx.AuthRequire) > 0 {
@@ -955,7 +1048,7 @@ func genC07(tier string, rng *xvlib.Rng, run func(string, bool)) {
 		run(fmt.Sprintf("k1 %d addr-amount", v), true)
 	}
 	// 3. schema-walking mutation of accepted transactions of every form and version
-	forms := []string{"ak", "multi", "account", "acctini", "xuper"}
+	forms := []string{"ak", "multi", "cosign", "account", "acctini", "xuper"}
 	nm := 0
 	for _, ver := range []int{3, 2, 1} {
 		specs := baseSpecs(ver)
@@ -993,10 +1086,13 @@ func genC07(tier string, rng *xvlib.Rng, run func(string, bool)) {
 			}
 		}
 	}
+	// 4. outputs spent by the contract code the transaction carries
+	genVc(thorough, rng, run)
 	out.Stats.Exhaustive = false
-	out.Stats.Rule = fmt.Sprintf("d3/i3/d1: %d random transactions per encoder (all fields, empty/nil variants, versions 3,4,100 / 1,2), extracted schema bytes double-SHA-256 checked against MakeTxDigestHash and MakeTransactionID; vt: accepted transactions of 5 forms (address initiator, 2 extra signers, account-owned input via ACL, account initiator, aggregated XuperSign) × versions 3,2,1 × every single-field mutation reached by walking the %d leaf paths of the Transaction message (flip/truncate/append/clear, +1, toggle, map key), list grow/drop/dup/swap, signature by another key / with another public key / replayed from another transaction / swapped, signer and owner replaced — each once with the old txid kept and once with the txid recomputed —, plus re-signed variants (the signers sign again) whose spent output belongs to an address/account that did not sign — through the real State.VerifyTx; distinct by op line", nPre, len(schemas.TxFields))
+	out.Stats.Rule = fmt.Sprintf("d3/i3/d1: %d random transactions per encoder (all fields, empty/nil variants, versions 3,4,100 / 1,2), extracted schema bytes double-SHA-256 checked against MakeTxDigestHash and MakeTransactionID; vt: accepted transactions of 6 forms (address initiator, 2 extra signers, 2 pure co-signers with an initiator that owns nothing, account-owned input via ACL, account initiator, aggregated XuperSign) × versions 3,2,1 × every single-field mutation reached by walking the %d leaf paths of the Transaction message (flip/truncate/append/clear, +1, toggle, map key), list grow/drop/dup/swap, signature by another key / with another public key / replayed from another transaction / swapped, signer and owner replaced — each once with the old txid kept and once with the txid recomputed —, plus re-signed variants (the signers sign again) whose spent output belongs to an address/account that did not sign — through the real State.VerifyTx; signature slots also receive a valid entry of another signer of the same transaction, and the signer list is edited after signing together with its signature slots (newcomer with its own signature appended / prepended, entry removed with its signature, replaced, account prefix, swap, initiator replaced); vc: correctly signed transactions carrying $xvvault.withdraw (payer = contract | initiator; 1–3 payer outputs, 1–3 transfers, change, own input alongside; 4 signer sets; versions 3, 1) × every tamper of the owner of a spent output / the declared contract inputs / the payments / the request (forged view, riding-along outputs with fresh / same-txid / same-offset / same reference, declared set dropped / extended / reordered / not in the tx, payments redirected / raised / dropped, request amount / payer changed) and random pairs of them, judged on content; distinct by op line", nPre, len(schemas.TxFields))
 	out.Stats.Notes = append(out.Stats.Notes,
-		"covered entry point: State.VerifyTx (ImmediateVerifyTx: txid recomputation, verifySignatures/verifyXuperSign, verifyUTXOPermission) on a real State over a real ledger with an in-memory ACL table (account Cn is controlled by address An, threshold 1); contract requests / RWSet re-execution (C09) and Chain.SubmitTx / the block path (verifyDAGTxs) are not driven",
+		"covered entry point: State.VerifyTx (ImmediateVerifyTx: txid recomputation, verifySignatures/verifyXuperSign, verifyUTXOPermission) on a real State over a real ledger with an in-memory ACL table (account Cn is controlled by address An, threshold 1); the state machine has a real contract manager with the harness kernel contract $xvvault (vc lines: contract-justified inputs, isContractUtxoEffective, token side of the RWSet re-execution); the key/value side of contract re-execution (C09), Chain.SubmitTx and the block path (verifyDAGTxs) are not driven",
+		"every vt line verifies its signed base first and then the mutant (same signature bytes): what the implementation keeps between two verifications is part of the input",
 		"observations (distribution keys observation:*): Blockid, ReceivedTimestamp and ModifyBlock.* are outside digest and id, so changing them is accepted",
 		"v1/v2 transactions: vt lines are judged by the oracle only (the Lean model has the v3 encoder byte for byte and the v1/v2 stream abstractly)")
 }
